@@ -978,7 +978,8 @@ def edit_postconditions(geo, CL, area0, ncols_want, nnodes_want):
     return out
 
 
-RENAME_PRIMES = ('none', 'rename-all-to-themselves', 'rename-upper-case', 'rename-one-identical-pair', 'rename-partly-identical')
+RENAME_PRIMES = ('none', 'rename-all-to-themselves', 'rename-upper-case', 'rename-one-identical-pair', 'rename-partly-identical',
+                 'rename-digit-ended')
 
 
 def rename_prime(m, geo, prime, chars_arg, spaces, CL, LL, add):
@@ -995,6 +996,14 @@ def rename_prime(m, geo, prime, chars_arg, spaces, CL, LL, add):
             old, new = list(names), [x.upper() for x in names]
         elif prime == 'rename-one-identical-pair':
             old, new = names[-1], names[-1]
+        elif prime == 'rename-digit-ended':
+            # a name of the convention's length whose last character is a digit (legal for rename_column / in files)
+            if what != 'column' or not names[0].strip(' '):
+                continue
+            fresh = (names[0].strip(' ')[:L - 1] + '1').rjust(L)
+            if fresh in names:
+                continue
+            old, new = [names[0]], [fresh]
         else:
             if what == 'column':
                 try:
@@ -1057,6 +1066,9 @@ def rename_prime(m, geo, prime, chars_arg, spaces, CL, LL, add):
             problems.append(('raises-%s' % type(e).__name__, 'setup_block_name_index raised %r' % (e,)))
         if len(set(blk)) != len(blk):
             problems.append(('duplicate-block-name', '%d block names, %d distinct' % (len(blk), len(set(blk)))))
+        if not problems:
+            # every (layer, column) pair still gives a block whose parts give the pair back
+            problems += block_clauses(m, geo, geo.convention, geo.atmosphere_type, len(geo.layerlist) - 1, True)
         for c, w in problems:
             add(op, c, 'below-capacity', 0, '%s(%r, %r): %s' % (op, old if len(old) < 5 else old[:4] + ['...'],
                                                                new if len(new) < 5 else new[:4] + ['...'], w))
@@ -1065,7 +1077,33 @@ def rename_prime(m, geo, prime, chars_arg, spaces, CL, LL, add):
     return ok
 
 
-def edit_sequence(conv, cs, seq, spaces, atm, grid, prime='none'):
+def edit_file_cycle(m, geo):
+    """The edited geometry written and read back: no node or column lost, names the same up to padding."""
+    import os
+    path = os.path.join(core.scratch(), 'c17_edit.dat')
+    try:
+        with quiet():
+            with core.timelimit(CALL_LIMIT * 6):
+                geo.write(path)
+                g1 = m.mulgrid(path)
+    except core.CaseTimeout:
+        return [('reread-does-not-terminate', 'write + mulgrid(filename) did not finish')]
+    except Exception as e:
+        return [('reread-raises-%s' % type(e).__name__, 'write + mulgrid(filename) of the edited geometry raised %r' % (e,))]
+    out = []
+    for what, a, b in (('node', geo.nodelist, g1.nodelist), ('column', geo.columnlist, g1.columnlist),
+                       ('layer', geo.layerlist, g1.layerlist)):
+        na, nb = [x.name.strip(' ') for x in a], [x.name.strip(' ') for x in b]
+        if len(nb) != len(na):
+            out.append(('reread-%s-lost' % what, 'the edited geometry has %d %ss, after write + mulgrid(filename) %d: names that '
+                        'differ only in their padding collapse on reading' % (len(na), what, len(nb))))
+        elif na != nb:
+            out.append(('reread-names-changed', '%s names differ after write + mulgrid(filename): %r'
+                        % (what, [(x, y) for x, y in zip(na, nb) if x != y][:3])))
+    return out
+
+
+def edit_sequence(conv, cs, seq, spaces, atm, grid, prime='none', justify='r'):
     """-> (violations [(sig, what, step)], operations applied, set of operations for which exhaustion was reached)."""
     m = lib()
     chars_arg = cs
@@ -1073,9 +1111,9 @@ def edit_sequence(conv, cs, seq, spaces, atm, grid, prime='none'):
     CL = N.COLNAME_LENGTH[conv]
     nx, ny = grid
     viol, reached = [], set()
-    desc = '%s%s on rectangular(%dx%dx1, convention %d, atmos_type %d, chars %r, spaces %s)' % (
-        '' if prime == 'none' else prime + ' then ', seq, nx, ny, conv, atm, cs, spaces)
-    route = '' if prime == 'none' else '|after=%s' % prime
+    desc = '%s%s on rectangular(%dx%dx1, convention %d, atmos_type %d, chars %r, spaces %s, justify %s)' % (
+        '' if prime == 'none' else prime + ' then ', seq, nx, ny, conv, atm, cs, spaces, justify)
+    route = ('' if prime == 'none' else '|after=%s' % prime) + ('' if justify == 'r' else '|left-justified')
 
     def add(op, clause, rel, step, what):
         viol.append(('C17|%s|%s|conv=%d,%s|edit-sequence%s' % (op, clause, conv, rel, route),
@@ -1084,7 +1122,7 @@ def edit_sequence(conv, cs, seq, spaces, atm, grid, prime='none'):
     try:
         with quiet():
             geo = m.mulgrid().rectangular([10.0] * nx, [10.0] * ny, [5.0] if prime == 'none' else [5.0, 5.0], convention=conv,
-                                          atmos_type=atm, justify='r', chars=chars_arg, spaces=spaces)
+                                          atmos_type=atm, justify=justify, chars=chars_arg, spaces=spaces)
     except m.NamingConventionError:
         return viol, 0, reached          # this grid cannot be named with the alphabet: nothing to edit
     if prime != 'none':
@@ -1150,6 +1188,8 @@ def edit_sequence(conv, cs, seq, spaces, atm, grid, prime='none'):
             add(op, 'edit-refused', rel, steps, 'returned %r for a quadrilateral column and one of its nodes with %d names free' % (res, fc))
             break
         post = edit_postconditions(geo, CL, area0, want_cols, want_nodes)
+        if not post and (steps <= 3 or steps % 5 == 0):
+            post = edit_file_cycle(m, geo)
         for c, w in post:
             add(op, c, rel, steps, w)
         if post:
@@ -1164,12 +1204,12 @@ def run_ED(unit, tier, rec):
     # without blanks a repeated letter makes 'which name belongs to the number 0' ambiguous for the operations that
     # take the alphabet as it is: the repeated-letter alphabet is run with blanks allowed only
     for spaces in ((True,) if (seq == 'split' or len(set(cs)) != len(cs)) else (True, False)):
-        for atm in (0, 2):
+        for atm in (0, 1, 2):
             for grid in EDIT_GRIDS:
-                for prime in RENAME_PRIMES:
+                for prime, justify in [(p_, 'r') for p_ in RENAME_PRIMES] + [('none', 'l'), ('rename-digit-ended', 'l')]:
                     with core.timelimit(300):
-                        viol, steps, reached = edit_sequence(conv, cs, seq, spaces, atm, grid, prime)
-                    rec.case(('ED', conv, cs, seq, spaces, atm, grid, prime), nontrivial=steps > 0,
+                        viol, steps, reached = edit_sequence(conv, cs, seq, spaces, atm, grid, prime, justify)
+                    rec.case(('ED', conv, cs, seq, spaces, atm, grid, prime, justify), nontrivial=steps > 0,
                              outcome='edit-sequence:' + ('exhausted' if reached else ('not-exhausted' if steps else 'grid-not-nameable')))
                     rec.count('edit_operations', steps)
                     if prime != 'none' and steps:
@@ -1178,7 +1218,8 @@ def run_ED(unit, tier, rec):
                         rec.count('exhaustion_reached:' + op, 1)
                     for sig, what, st in viol:
                         rec.violation(sig, what, {'kind': 'edit-sequence', 'conv': conv, 'chars': cs, 'seq': seq, 'spaces': spaces,
-                                                  'atmos': atm, 'grid': list(grid), 'step': st, 'prime': prime})
+                                                  'atmos': atm, 'grid': list(grid), 'step': st, 'prime': prime,
+                                                  'justify': justify})
 
 
 def run_C(unit, tier, rec):
@@ -1387,7 +1428,7 @@ def replay(case):
         return [(s, w) for s, w, num in viol if num == case['n']]
     if k == 'edit-sequence':
         viol, steps, reached = edit_sequence(case['conv'], case['chars'], case['seq'], case['spaces'], case['atmos'],
-                                             tuple(case['grid']), case.get('prime', 'none'))
+                                             tuple(case['grid']), case.get('prime', 'none'), case.get('justify', 'r'))
         return [(s, w) for s, w, st in viol]
     if k == 'int_to_chars':
         viol, n = check_int_to_chars(case['justify'], case['chars'], case['spaces'], case['length'], nmax=case['n'])
